@@ -243,10 +243,15 @@ func VerifC09_EthernetDemux() {
 	mac := vr.Bytes("macs", 12)
 	tci := vr.U16("tci")
 
-	plain := append(append([]byte{}, mac...), byte(et>>8), byte(et))
-	plain = append(plain, body...)
-	tagged := append(append([]byte{}, mac...), 0x81, 0x00, byte(tci>>8), byte(tci), byte(et>>8), byte(et))
-	tagged = append(tagged, body...)
+	plain := make([]byte, 14+len(body))
+	copy(plain, mac)
+	plain[12], plain[13] = byte(et>>8), byte(et)
+	copy(plain[14:], body)
+	tagged := make([]byte, 18+len(body))
+	copy(tagged, mac)
+	tagged[12], tagged[13], tagged[14], tagged[15] = 0x81, 0x00, byte(tci>>8), byte(tci)
+	tagged[16], tagged[17] = byte(et>>8), byte(et)
+	copy(tagged[18:], body)
 
 	e1, e2 := NewEthernet(), NewEthernet()
 	vr.Assert(e1.UnmarshalBinary(plain) == nil, "untagged-decodes")
